@@ -57,27 +57,44 @@ class Builder:
         self.body.append(step)
         return step
 
-    def build(self):
+    GUARDS = {"plain": [], "ign": [], "g1": [1], "g0": [0], "g1ign": [1], "g0ign": [0],
+              "g11": [1, 1], "g10": [1, 0], "g01": [0, 1], "g00": [0, 0]}
+
+    @classmethod
+    def body_base(cls, npre, mode, style="lc"):
+        """Register index of the first body step."""
+        per = 2 if style == "cmp" else 1
+        return npre + per * len(cls.GUARDS[mode])
+
+    def build(self, style="lc"):
+        """style: how guard conditions are typed: "lc" secret integer 0/1, "bool" secret boolean,
+        "cmp" result of a comparison (secret > 0)."""
         mode = self.mode
         ign = mode in ("ign", "g1ign", "g0ign")
-        guards = {"plain": [], "ign": [], "g1": [1], "g0": [0], "g1ign": [1], "g0ign": [0],
-                  "g11": [1, 1], "g10": [1, 0], "g01": [0, 1]}[mode]
+        guards = self.GUARDS[mode]
         steps = list(self.pre)
         n = self.nreg
-        body = self.body
-        # registers: pre-steps occupy 0..n-1; each guard adds its cond register, then compound steps add registers.
-        # body steps must refer only to pre registers (or registers they know), so we keep it simple:
         conds = []
         for gv in guards:
-            steps.append(new_step("S", gv))
-            conds.append(n)
-            n += 1
-        wrapped = body
+            if style == "bool":
+                steps.append(dict(new_step("SB", gv), tag="cond"))
+                conds.append(n)
+                n += 1
+            elif style == "cmp":
+                steps.append(dict(new_step("S", gv), tag="cond"))
+                steps.append({"op": "bin", "name": "gt", "a": {"r": n}, "b": {"c": 0}, "tag": "cond"})
+                conds.append(n + 1)
+                n += 2
+            else:
+                steps.append(dict(new_step("S", gv), tag="cond"))
+                conds.append(n)
+                n += 1
+        wrapped = self.body
         for c in reversed(conds):
             wrapped = [{"op": "guarded", "cond": {"r": c}, "body": wrapped}]
         steps += wrapped
         return {"id": self.pid, "ign": ign, "steps": steps, "cfg": self.cfg,
-                "meta": dict(self.meta, mode=mode)}
+                "meta": dict(self.meta, mode=mode, npre=len(self.pre), ng=len(guards), nbody=len(self.body), style=style)}
 
 
 def window(b, extra=1):
